@@ -435,6 +435,12 @@ def r6_ack_list_pool(ctx):
     ctx.instances[before:] = keep
 
 
+def r20_unconditional_mutators(ctx):
+    """Mutators this property relies on always perform their effect (shared table in rules/mutators.py)."""
+    import rules.mutators as mutators
+    mutators.run_for(ctx, "C11")
+
+
 RULES = [
     ("C11.R1", "send gates test content (not the outer length of nested buffers); predicates/flags/sections agree", r1_send_gates, 8, ["default", "all-features", "server-only"]),
     ("C11.R2", "acknowledgement stores the recorded tick, only for known messages, forward-only", r2_ack, 6, ["default", "all-features", "server-only"]),
@@ -442,5 +448,6 @@ RULES = [
     ("C11.R4", "the client acknowledges exactly the messages it has consumed, with their own index, and always sends the acks", r4_client_acks, 8, ["default", "all-features", "client-only"]),
     ("C11.R5", "an acknowledgement covers exactly the entities whose data travelled in that message, so acknowledging one message never skips data of another (same rule as C10.R1)", r5_ack_lists, 12, ["default", "all-features", "server-only"]),
     ("C11.R6", "recycled acknowledgement entity lists are empty when reused (an ack never covers entities of an earlier message)", r6_ack_list_pool, 1, ["default", "all-features", "server-only"]),
+    ("C11.R20", "mutators this property relies on always perform their effect (rules/mutators.py): no early return, no guard outside the allowed set", r20_unconditional_mutators, 3, ["default", "all-features"]),
 ]
 THOROUGH_CONFIGS = ["default", "all-features", "server-only", "client-only"]
